@@ -33,11 +33,11 @@ CLAIMS = {
         note="trusted: scc_partition; states are copied attribute by attribute (attribute set asserted)"),
     "C07": dict(category="exploration", design="4/C07",
         technique="bounded-exhaustive enumeration of specifications x sizes x parameters and of rule forms x objects; oracle: plain enumeration of words / parse trees",
-        text="Every specification of the corpus (W and G, every rule database): generated objects == plain enumeration, no repetition, number == the specification's own count, for all sizes <= N and parameter tuples. Every rule form with object maps (plain, equivalence, reverse-of-equivalence, equivalence paths): backward(forward(o)) == o for every parent object, parts in the children, forward(backward(parts)) == parts for every admissible tuple.",
+        text="Every specification of the corpus (W incl. marked words with a three-to-one rule, G incl. reverse-needed universes, every rule database): generated objects == plain enumeration, no repetition, number == the specification's own count, for all sizes <= N and parameter tuples in either keyword order. Every interruption point of one generation / counting call followed by a retry on the same specification. Every rule form with object maps (plain, equivalence, reverse-of-equivalence, equivalence paths): backward(forward(o)) == o for every parent object, parts in the children, forward(backward(parts)) == parts for every admissible tuple.",
         note="exhaustive over the stated finite families only"),
     "C08": dict(category="model_checking", design="4/C08",
         technique="exhaustive enumeration of the decisions of the random number generator (every draw value, every stub pick, every final choice) with exact Fraction arithmetic; end-to-end decision trees for small sizes",
-        text="Per rule form with a sampler and per (size, parameters): the exact distribution over parent objects is computed from every outcome of the generator and must be uniform; descending into an empty composition is a violation. End to end: the complete decision tree of spec.random_sample_object_of_size for sizes <= 3 (4) on corpus specifications; refusal exactly when no object exists.",
+        text="Per rule form with a sampler (incl. products with merged statistics on non-atomic factors and a three-to-one rule with a custom constructor) and per (size, parameters): the exact distribution over parent objects is computed from every outcome of the generator and must be uniform; descending into an empty composition is a violation. End to end: the complete decision tree of spec.random_sample_object_of_size for sizes <= 3 (4) on corpus specifications; refusal exactly when no object exists.",
         note="trusted: stub sub-samplers uniform on the true child objects (induction hypothesis); factorisation by request pattern validated against the unreduced enumeration for counts <= 4"),
     "C09": dict(category="exploration", design="4/C09",
         technique="bounded-exhaustive enumeration of classes x strategies x derived rule forms (W and G families); oracle: plain enumeration bound to the sub-term providers",
@@ -57,7 +57,7 @@ CLAIMS = {
         note="each ordered pair judged independently"),
     "C13": dict(category="exploration", design="4/C13",
         technique="bounded-exhaustive enumeration of ordered pairs of searchers x both finder variants; oracles of C01/C02/C12 on the returned pair",
-        text="All ordered pairs of the quick start classes x packs {base, symmetry, inferral,...} x {ParallelSpecFinder, EqPathParallelSpecFinder}: find() returns None or two specifications, each valid for its own start class, isomorphic, with a valid bijection; no exception.",
+        text="All ordered pairs of the quick start classes x packs {base, symmetry, inferral, two expansion sets,...} x {ParallelSpecFinder, EqPathParallelSpecFinder}, with fresh searchers and (for packs with alternative rules) with both universes fully expanded beforehand: find() returns None or two specifications, each valid for its own start class, isomorphic, with a valid bijection; no exception.",
         note="RuleDB only (the finder supports nothing else)"),
     "C14": dict(category="model_checking", design="4/C14",
         technique="lock-step runs of the two rule databases on the same controlled schedule with an observer after every insertion",
@@ -81,7 +81,7 @@ CLAIMS = {
         note=""),
     "C19": dict(category="exploration", design="4/C19",
         technique="bounded-exhaustive enumeration of specifications with verified classes under every rule database; expand_verified under the virtual clock",
-        text="For every start class x VerifyByPrefix(S) (all S of <= 2 prefixes of length <= 2) x variants x rule databases: expand_verified() result passes C01/C02, has no expandable verified class left, shares no rule of the specification with the original when something was expanded; the original is unchanged and still counts correctly.",
+        text="For every start class x VerifyByPrefix(S) (all S of <= 2 prefixes of length <= 2, and nested verification where the offered pack verifies a deeper class) x variants x rule databases: expand_verified() result passes C01/C02, has no expandable verified class left, shares no rule of the specification with the original when something was expanded; the original is unchanged and still counts correctly.",
         note="the reverse-retry branch of expand_verified is not reached by the W-domain packs (stated in DESIGN limits)"),
     "C20": dict(category="exploration", design="4/C20",
         technique="bounded-exhaustive enumeration of equations of corpus specifications; oracle: true series by plain enumeration substituted positionally, coefficient comparison up to degree M; Taylor expansion of closed forms to order 12",
